@@ -185,6 +185,7 @@ func (m *Manager) Accept(ctx context.Context, peerConn transport.PeerConn) (*Con
 
 // registerConnection adds a connection to the manager.
 func (m *Manager) registerConnection(conn *Connection) {
+	defer verifhook.At("peer.register.done", m, conn)
 	m.mu.Lock()
 	// Reject new registrations after the manager has been canceled (Close
 	// runs cancel() then waits on wg). Calling wg.Add concurrently with
@@ -223,6 +224,7 @@ func (m *Manager) registerConnection(conn *Connection) {
 
 // handleDisconnect is called when a connection is closed.
 func (m *Manager) handleDisconnect(conn *Connection, err error) {
+	defer verifhook.At("peer.disconnect.done", m, conn)
 	m.mu.Lock()
 	// Remove from peers map if this is still the active connection
 	if existing, ok := m.peers[conn.RemoteID]; ok && existing == conn {
